@@ -656,7 +656,7 @@ def handleCore (mac : Bool) (args : List String) (obs : String) : Option Reply :
        -- C03: the samples / iters figures of every statistics row
        (if execAct = .bench ∧ !listing ∧ !clash ∧ nbRuns.isEmpty then
           let rows := (implOut.splitOn "\n").filterMap fun l =>
-            let cells := l.splitOn " │ "
+            let cells := (LineCodec.splitCells l.toList).map String.ofList   -- Props/C20Codec.cells_read_back
             if cells.length ≥ 6 then
               match (cells.getD (cells.length - 2) "").trimAscii.toString.toNat?, (cells.getD (cells.length - 1) "").trimAscii.toString.toNat? with
               | some a, some b => some (a, b)
@@ -778,7 +778,8 @@ def handleCore (mac : Bool) (args : List String) (obs : String) : Option Reply :
   let tag :=
     if ps.items.isEmpty then "trivial-empty" else
     s!"{ps.act}-{if ps.pos.isEmpty ∧ ps.neg.isEmpty then "nofilter" else "filter"}-ign{ps.cfg.runIgnored}" ++
-      (if r.ambiguous then "-ambiguous" else "") ++ (if clash then "-clash" else "") ++ (if sibAll then "" else "-nosibok")
+      (if r.ambiguous then "-ambiguous" else "") ++ (if clash then "-clash" else "") ++ (if sibAll then "" else "-nosibok") ++
+      (if (cfgKV0.any (·.1 = "conc")) then "-conc" else "")
   some { model := model, verdict := verdict, tag := (if mac then "mac-" else "") ++ tag }
 
 /-- `elist threads per rounds`: entries pushed into one `EntryList` from several threads at once. The lab
